@@ -23,7 +23,7 @@ void pk_get (SNDFILE *sf, PeekState *st, int with_blobs)
 	st->wchunks_used = psf->wchunks.used ; st->wchunks_count = psf->wchunks.count ;
 	st->norm_float = psf->norm_float ; st->norm_double = psf->norm_double ;
 	st->add_clipping = psf->add_clipping ; st->auto_header = psf->auto_header ;
-	st->scale_int_float = psf->scale_int_float ; st->float_int_mult = psf->float_int_mult ;
+	st->scale_int_float = psf->scale_int_float ; st->float_int_mult = psf->float_int_mult ; st->endian = psf->endian ;
 	if (with_blobs)
 	{	if (psf->codec_data)
 			st->codec_hash = vl_hash (psf->codec_data, malloc_usable_size (psf->codec_data), VL_H0) ;
